@@ -10,7 +10,7 @@ from . import handle_common as H
 MC_CFG = "CONSTANT Small = %s\nINIT Init\nNEXT Next\nCHECK_DEADLOCK FALSE\nINVARIANT InvSortedAccepted\nINVARIANT InvSwapRejected\n"
 TRACE_CFG = "INIT Init\nNEXT Next\nCHECK_DEADLOCK FALSE\n"
 COLS = ["seqid", "source", "featuretype", "start", "end", "score", "strand", "frame", "file_order", "length"]
-SEQIDS = ["chrB", "chra", "Chr1", "chré", "10", "9", "2"]
+SEQIDS = ["chrB", "chra", "Chr1", "chr1", "chré", "10", "9", "2"]       # ('Chr1' and 'chr1' are two sequences)
 SCORES = ["10", "9", "2.5", ".", "100"]
 TYPES = ["gene", "exon", "CDS", "Exon", "mRNA", "tRNA", "five_prime_UTR", "intron"]
 
@@ -253,6 +253,16 @@ def replay(ctx, rec):
     with dbio.quiet():
         db = gffutils.create_db(objs, ":memory:")
     q = c["q"]
+    if c["via"] in ("count_features_of_type", "featuretypes", "seqids"):
+        if c["via"] == "count_features_of_type":
+            t = q.get("count")
+            n = db.count_features_of_type(t)
+            ev = [{"db": 1, "kind": "count", "t": enc(t) if t else [], "n": n if isinstance(n, int) and not isinstance(n, bool) else -1}]
+        elif c["via"] == "featuretypes":
+            ev = [{"db": 1, "kind": "featuretypes", "vals": [enc(x) for x in db.featuretypes()]}]
+        else:
+            ev = [{"db": 1, "kind": "seqids", "vals": [enc(x) for x in db.seqids()]}]
+        return any(cl != "drift" for _, cl in judge(ctx, [c["features"]], ev, "replay"))
     try:
         ids = execute(db, q, c["via"])
     except Exception:  # noqa
